@@ -14,7 +14,7 @@ Theorem C14_no_crash : forall en e mid s, validate_gen en (set_default e) mid <>
 Proof. exact validate_gen_no_crash. Qed.
 Print Assumptions C14_no_crash.
 
-(* Admitted => parallelTrialCount >= 1; maxTrialCount absent or >= 1 and >= parallel; maxFailedTrialCount absent or in 0..max. *)
+(* Accepted by the webhooks => parallelTrialCount >= 1; maxTrialCount absent or >= 1 and >= parallel; maxFailedTrialCount absent or in 0..max. *)
 Theorem C14_budget : forall en e0, admitted en e0 ->
   let e := set_default e0 in
   exists p, e_par e = Some p /\ 1 <= p /\
@@ -23,7 +23,7 @@ Theorem C14_budget : forall en e0, admitted en e0 ->
 Proof. exact admitted_budget_spec. Qed.
 Print Assumptions C14_budget.
 
-(* Admitted => every pointer the controllers, the generator and the pod webhook dereference is present
+(* Accepted by the webhooks => every pointer the controllers, the generator and the pod webhook dereference is present
    (the list is [derefs_ok] in Model/Validator.v, with the Go sites it was collected from). *)
 Theorem C14_derefs : forall en e0, admitted en e0 -> derefs_ok (set_default e0) = true.
 Proof. exact admitted_derefs. Qed.
@@ -77,7 +77,7 @@ Theorem C14_template_runs_refuted_metadata : exists en e0 asg,
 Proof. exact f8c_refuted. Qed.
 Print Assumptions C14_template_runs_refuted_metadata.
 
-(* Admitted (anchored name rule, <= 40 bytes) and an algorithm name that is a DNS-1123 label of <= 22 bytes =>
+(* Accepted by the webhooks (anchored name rule, <= 40 bytes) and an algorithm name that is a DNS-1123 label of <= 22 bytes =>
    <name>-<algorithm> is a DNS-1035 label (Service) and a DNS subdomain (Deployment); <name>-<8 alphanumerics> is a DNS-1123
    label and subdomain (Trial and the Job named after it). *)
 Theorem C14_names : forall en e0 algo suffix,
